@@ -250,6 +250,9 @@ pub struct CardInner {
     pub inits_completed: u32,
     /// the injected SPI error hit the one transfer whose result the driver ignores by design
     pub spi_err_in_ignored_trailer: bool,
+    /// one-byte transfers seen on an idle line since identification completed (the first one is the
+    /// trailing byte of `acquire`, the next ones are the not-busy polls of the following command)
+    post_init_idle_reads: u32,
 }
 
 #[derive(Clone)]
@@ -331,6 +334,7 @@ impl SimCard {
             multi_writes_seen: 0,
             inits_completed: 0,
             spi_err_in_ignored_trailer: false,
+            post_init_idle_reads: 0,
         })))
     }
     pub fn begin_call(&self) {
@@ -557,6 +561,7 @@ impl CardInner {
                         self.init_state = 3;
                         if self.kind == Kind::V1Sc {
                             self.inits_completed += 1;
+                            self.post_init_idle_reads = 0;
                         }
                     }
                     self.respond(&[0x00]);
@@ -573,6 +578,7 @@ impl CardInner {
                     if self.init_state == 3 {
                         self.init_state = 4;
                         self.inits_completed += 1;
+                            self.post_init_idle_reads = 0;
                     }
                 }
                 let r = self.r1();
@@ -911,20 +917,25 @@ impl SpiDevice<u8> for SimCard {
         let mut c = self.0.borrow_mut();
         let n = c.transactions;
         c.transactions += 1;
+        // `acquire` ends with one more `read_byte()`: the first one-byte transfer after the
+        // identification sequence has completed and its last response has been read
+        let idle_single = {
+            let done = (c.kind == Kind::V1Sc && c.init_state >= 3) || c.init_state >= 4;
+            let last = c.cmd_log.last().map(|x| x.0);
+            let one_byte = operations.len() == 1 && matches!(&operations[0], Operation::Transfer(r, w) if r.len() == 1 && w.len() == 1);
+            done && matches!(last, Some(58) | Some(0xA9)) && c.out.is_empty() && one_byte
+        };
         for f in c.faults.clone() {
             if let Fault::SpiError { nth_transaction } = f {
                 if nth_transaction == n {
                     c.fault_fired = true;
-                    // `acquire` ends with `let _ = self.read_byte()`: a single one-byte transfer
-                    // right after the identification sequence has completed and its last
-                    // response has been read
-                    let done = (c.kind == Kind::V1Sc && c.init_state >= 3) || c.init_state >= 4;
-                    let last = c.cmd_log.last().map(|x| x.0);
-                    let one_byte = operations.len() == 1 && matches!(&operations[0], Operation::Transfer(r, w) if r.len() == 1 && w.len() == 1);
-                    c.spi_err_in_ignored_trailer = done && matches!(last, Some(58) | Some(0xA9)) && c.out.is_empty() && one_byte;
+                    c.spi_err_in_ignored_trailer = idle_single && c.post_init_idle_reads == 0;
                     return Err(SpiErr);
                 }
             }
+        }
+        if idle_single {
+            c.post_init_idle_reads += 1;
         }
         for op in operations.iter_mut() {
             match op {
